@@ -84,6 +84,9 @@ var (
 	recs  = map[string]*Rec{}
 )
 
+// EnvInt reads an integer environment variable.
+func EnvInt(k string, def int64) int64 { return envInt(k, def) }
+
 func envInt(k string, def int64) int64 {
 	if s := os.Getenv(k); s != "" {
 		if v, err := strconv.ParseInt(s, 10, 64); err == nil {
